@@ -474,7 +474,7 @@ def zone_menu():
         zs.append(('tzfile-stream-Dublin', tz.tzfile(f)))
     # tzlocal objects built under other TZ settings (offsets are fixed at construction): only their equality relation
     # with the other zones is examined here, not copies (a copy re-reads the environment)
-    for env in ('UTC+3', 'GMT-2', 'UTC0', 'EST5', 'UTC-5:30'):
+    for env in ('UTC+3', 'GMT-2', 'UTC0', 'EST5', 'UTC-5:30', 'EST5EDT,M3.2.0,M11.1.0', 'EST5EDT3,M3.2.0,M11.1.0', 'EST5EDT4:30,M3.2.0,M11.1.0'):
         with pm.tz_env(env):
             zs.append(('tzlocal@' + env, tz.tzlocal()))
     # same transition instants and the same type table, the types taken in opposite phase / from another table
@@ -499,6 +499,14 @@ def zone_menu():
 
 
 def eval_values(case):
+    # evaluated under a process zone that has a summer time, so that tzlocal objects built under other settings show
+    # their own daylight offsets (no other zone class looks at the process zone)
+    from props import posixmenu as _pm
+    with _pm.tz_env('EST5EDT,M3.2.0,M11.1.0'):
+        return _eval_values(case)
+
+
+def _eval_values(case):
     warnings.simplefilter('ignore')
     zs = zone_menu()
     viols = []
